@@ -926,21 +926,6 @@ theorem existsQ_iff (t : Tree) (p : Path) :
 theorem render_mem_treePaths {t : Tree} {x : GPath} (h : x ∈ t) : render x ∈ treePaths t :=
   List.mem_map_of_mem h
 
-theorem mark_mem {t : Tree} {p : Path} {isd : Bool} (h : (p, isd) ∈ t) (hp : p ≠ []) :
-    mark t (p, false) ∈ t := by
-  unfold mark
-  split
-  · next hd => exact ((isDirQ_iff t p).mp hd).2
-  · next hd =>
-    cases isd with
-    | false => exact h
-    | true => exact absurd ((isDirQ_iff t p).mpr ⟨hp, h⟩) hd
-
-theorem mark_dir {t : Tree} {d : Path} (h : isDirQ t d = true) (s : Bool) : mark t (d, s) ∈ t := by
-  unfold mark
-  rw [if_pos h]
-  exact ((isDirQ_iff t d).mp h).2
-
 theorem mem_listdir {t : Tree} {d : Path} {b : Bool} {n : Str} (h : n ∈ listdir t d b) :
     ∃ isd, (d ++ [n], isd) ∈ t := by
   simp only [listdir, List.mem_filterMap, Prod.exists] at h
@@ -971,36 +956,6 @@ theorem mem_rlist {t : Tree} {d : Path} {b : Bool} {p : Path} (h : p ∈ rlist t
     intro e; subst e
     simp at hcond
   · cases hc
-
-/-- Everything `glob_in_dir` yields exists, except the base `d` of `_glob2`. -/
-theorem globIn_sound {t : Tree} {d : Path} {base : Str} {b : Bool} {x : GPath}
-    (h : x ∈ globIn t d base b) (hbase : base = [42, 42] → d ≠ [] → isDirQ t d = true)
-    (hx : x.1 ≠ []) : render (mark t x) ∈ treePaths t := by
-  unfold globIn at h
-  split at h
-  · next hb =>
-    rcases List.mem_cons.mp h with rfl | h
-    · exact render_mem_treePaths (mark_dir (hbase hb hx) true)
-    · obtain ⟨p, hp, rfl⟩ := List.mem_map.mp h
-      obtain ⟨hne, isd, hm⟩ := mem_rlist hp
-      exact render_mem_treePaths (mark_mem hm hne)
-  · split at h
-    · obtain ⟨n, hn, rfl⟩ := List.mem_map.mp h
-      obtain ⟨isd, hm⟩ := mem_listdir (List.mem_filter.mp hn).1
-      exact render_mem_treePaths (mark_mem hm (by simp))
-    · split at h
-      · split at h
-        · next hd =>
-          simp at h; subst h
-          exact render_mem_treePaths (mark_dir hd true)
-        · simp at h
-      · split at h
-        · next he =>
-          simp at h; subst h
-          obtain ⟨hne, hm | hm⟩ := (existsQ_iff t _).mp he
-          · exact render_mem_treePaths (mark_mem hm hne)
-          · exact render_mem_treePaths (mark_mem hm hne)
-        · simp at h
 
 /-- A yielded empty path is the base of `_glob2` on the root. -/
 theorem globIn_nil {t : Tree} {d : Path} {base : Str} {b : Bool} {x : GPath}
@@ -1188,23 +1143,616 @@ theorem mem_iglob_subset (t : Tree) (g : Str) (x : GPath) (h : x ∈ iglob t g) 
     · simp at h
   · exact h
 
-theorem globPaths_sound (t : Tree) (g : Str) (hb : TrailingBasesAreDirs t g) (q : Str)
-    (h : q ∈ globPaths t g) : q ∈ treePaths t := by
-  simp only [globPaths, List.mem_map] at h
-  obtain ⟨x, hx, rfl⟩ := h
-  have hne := iglob_ne_nil t g x hx
-  have hr := mem_iglob_subset t g x hx
-  cases hs : (splitSlash g).reverse with
-  | nil => rw [hs] at hr; simp [iglobR] at hr
-  | cons base revDir =>
-    rw [hs, iglobR_cons] at hr
-    obtain ⟨d, hd, hxd⟩ := List.mem_flatMap.mp hr
-    refine globIn_sound hxd ?_ hne
-    intro hbase hdne
-    apply hb
-    · have : splitSlash g = revDir.reverse ++ [base] := List.reverse_eq_cons_iff.mp hs
-      simp [endsRecursive, this, hbase]
-    · simp only [baseDirs, hs]; exact hd
-    · exact hdne
+
+/-! ### Anonymous versus named single-component wildcards -/
+
+/-- Forget the name `n`: a group `n` around a bare single-component wildcard becomes the wildcard. -/
+def anon (n : Str) : Item → Item
+  | .group m b =>
+    if m = n ∧ b = [.star .notSlash] then .atom (.star .notSlash)
+    else if m = n ∧ b = [.plus .notSlash] then .atom (.plus .notSlash)
+    else .group m b
+  | x => x
+
+theorem anon_atom (n : Str) (a : Atom) : anon n (.atom a) = .atom a := rfl
+theorem anon_bref (n m : Str) : anon n (.bref m) = .bref m := rfl
+
+theorem anon_group_ne {n m : Str} (h : m ≠ n) (b : List Atom) : anon n (.group m b) = .group m b := by
+  simp [anon, h]
+
+theorem startsSlash_anon (n : Str) (x : Item) : startsSlash (anon n x) = startsSlash x := by
+  cases x with
+  | atom a => rfl
+  | bref m => rfl
+  | group m b =>
+    simp only [anon]
+    split
+    · rfl
+    · split <;> rfl
+
+theorem endsSlash_anon (n : Str) (x : Item) : endsSlash (anon n x) = endsSlash x := by
+  cases x with
+  | atom a => rfl
+  | bref m => rfl
+  | group m b =>
+    simp only [anon]
+    split
+    · rfl
+    · split <;> rfl
+
+theorem enclosedFix_anon (n : Str) (x : Item) : enclosedFix (anon n x) = anon n (enclosedFix x) := by
+  cases x with
+  | atom a => cases a <;> rfl
+  | bref m => rfl
+  | group m b =>
+    by_cases h1 : m = n ∧ b = [.star .notSlash]
+    · obtain ⟨rfl, rfl⟩ := h1
+      simp [anon, enclosedFix]
+    · by_cases h2 : m = n ∧ b = [.plus .notSlash]
+      · obtain ⟨rfl, rfl⟩ := h2
+        simp [anon, enclosedFix]
+      · have e : anon n (.group m b) = .group m b := by simp [anon, h1, h2]
+        rw [e]
+        simp only [enclosedFix]
+        split
+        · next hb =>
+          subst hb
+          have hm : m ≠ n := fun e => h1 ⟨e, rfl⟩
+          simp [anon, hm]
+        · simp [anon, h1, h2]
+
+theorem enclosedPass_anon (n : Str) (b : Bool) (l : List Item) :
+    enclosedPass b (l.map (anon n)) = (enclosedPass b l).map (anon n) := by
+  induction l generalizing b with
+  | nil => rfl
+  | cons x t ih =>
+    cases t with
+    | nil => rfl
+    | cons y rest =>
+      have hih := ih (endsSlash x)
+      simp only [List.map_cons] at hih
+      simp only [List.map_cons, enclosedPass]
+      rw [startsSlash_anon, endsSlash_anon, hih]
+      split
+      · rw [enclosedFix_anon]
+      · rfl
+
+
+theorem trailingPass_concat (prevs : List Item) (last : Item) :
+    trailingPass (prevs ++ [last]) =
+      match last with
+      | .group n b =>
+        if b = [.star .notSlash] then prevs ++ [.group n [trailBody prevs.reverse], .atom .optSlash]
+        else prevs ++ [last]
+      | .atom (.star .notSlash) => prevs ++ [.atom (trailBody prevs.reverse), .atom .optSlash]
+      | _ => prevs ++ [last] := by
+  unfold trailingPass
+  have hr : (prevs ++ [last]).reverse = last :: prevs.reverse := by simp
+  rw [hr]
+  simp only [List.reverse_reverse]
+  cases last with
+  | atom a =>
+    cases a with
+    | star cs => cases cs <;> simp
+    | _ => simp
+  | bref m => simp
+  | group m b => simp only
+
+theorem trailBody_anon (n : Str) (prevs : List Item) :
+    trailBody ((prevs.map (anon n)).reverse) = trailBody prevs.reverse := by
+  rw [← List.map_reverse]
+  cases prevs.reverse with
+  | nil => rfl
+  | cons p ps =>
+    show trailBody (anon n p :: ps.map (anon n)) = trailBody (p :: ps)
+    unfold trailBody
+    simp only [List.head?_cons, Option.map_some, Option.getD_some, endsSlash_anon]
+    rfl
+
+theorem trailingPass_nil : trailingPass [] = [] := rfl
+
+theorem trailingPass_anon (n : Str) (l : List Item) :
+    trailingPass (l.map (anon n)) = (trailingPass l).map (anon n) := by
+  cases hr : l.reverse with
+  | nil =>
+    have : l = [] := by simpa using hr
+    subst this; rfl
+  | cons last rp =>
+    have hl : l = rp.reverse ++ [last] := List.reverse_eq_cons_iff.mp hr
+    generalize rp.reverse = prevs at hl
+    subst hl
+    rw [List.map_append, List.map_cons, List.map_nil, trailingPass_concat, trailingPass_concat, trailBody_anon]
+    cases last with
+    | atom a =>
+      cases a with
+      | star cs => cases cs <;> simp [anon]
+      | _ => simp [anon]
+    | bref m => simp [anon]
+    | group m b =>
+      by_cases h1 : m = n ∧ b = [.star .notSlash]
+      · obtain ⟨rfl, rfl⟩ := h1
+        simp only [anon, and_self, if_true, List.map_append, List.map_cons, List.map_nil]
+        unfold trailBody
+        split <;> simp
+      · by_cases h2 : m = n ∧ b = [.plus .notSlash]
+        · obtain ⟨rfl, rfl⟩ := h2
+          have e : anon m (.group m [.plus .notSlash]) = .atom (.plus .notSlash) := by simp [anon]
+          simp [e]
+        · have e : anon n (.group m b) = .group m b := by simp [anon, h1, h2]
+          rw [e]
+          simp only
+          split
+          · next hb =>
+            subst hb
+            have hm : m ≠ n := fun e => h1 ⟨e, rfl⟩
+            simp [anon, hm]
+          · simp [e]
+
+
+/-! #### The loop on two token lists that differ in one `*` / `${*n}` -/
+
+def starLike : Tok → Bool
+  | .star | .dstar | .dstarSlash => true
+  | _ => false
+
+/-- `enc` and `enc'` agree on every name other than `n`. -/
+def EncRel (n : Str) (e e' : List Str) : Prop := ∀ m, m ≠ n → (e.contains m = e'.contains m)
+
+/-- The state of the anonymous run is the state of the named run with the group `n` forgotten. -/
+def StRel (n : Str) (S S' : CState) : Prop := S.parts = S'.parts.map (anon n) ∧ EncRel n S.enc S'.enc
+
+theorem map_putPart {α β : Type} (f : α → β) (b : Bool) (l : List α) (x : α) :
+    (putPart b l x).map f = putPart b (l.map f) (f x) := by
+  unfold putPart
+  split <;> simp [List.map_dropLast]
+
+theorem compileStep_last {subs : Subs} {st st' : CState} {tok : Tok}
+    (h : compileStep subs st tok = .ok st') : st'.last = some tok := by
+  cases tok with
+  | lit s => simp only [compileStep] at h; cases h; rfl
+  | qm => simp only [compileStep] at h; cases h; rfl
+  | star => simp only [compileStep] at h; split at h <;> (cases h; rfl)
+  | dstar => simp only [compileStep] at h; split at h <;> (cases h; rfl)
+  | dstarSlash => simp only [compileStep] at h; split at h <;> (cases h; rfl)
+  | cls b => simp only [compileStep] at h; cases h; rfl
+  | named n =>
+    simp only [compileStep] at h
+    split at h
+    · cases h
+    · split at h
+      · cases h; rfl
+      · split at h
+        · cases h
+        · cases h; rfl
+
+/-- One step on related states: both fail alike, or both succeed with related states. -/
+theorem step_sim (subs : Subs) (n : Str) (S S' : CState) (tok : Tok) (hrel : StRel n S S')
+    (hlast : S.last = S'.last ∨ starLike tok = false) (htok : tok ≠ .named n) :
+    (∃ T T', compileStep subs S tok = .ok T ∧ compileStep subs S' tok = .ok T' ∧ StRel n T T') ∨
+    (∃ e, compileStep subs S tok = .error e ∧ compileStep subs S' tok = .error e) := by
+  obtain ⟨hp, he⟩ := hrel
+  cases tok with
+  | lit s =>
+    exact Or.inl ⟨_, _, rfl, rfl, by simp [hp, anon], he⟩
+  | qm =>
+    exact Or.inl ⟨_, _, rfl, rfl, by simp [hp, anon], he⟩
+  | cls b =>
+    exact Or.inl ⟨_, _, rfl, rfl, by simp [hp, anon], he⟩
+  | star =>
+    have hl : S.last = S'.last := by rcases hlast with h | h; exact h; cases h
+    simp only [compileStep, hl]
+    split
+    · exact Or.inl ⟨_, _, rfl, rfl, hp, he⟩
+    · exact Or.inl ⟨_, _, rfl, rfl, by simp [hp, anon], he⟩
+  | dstar =>
+    have hl : S.last = S'.last := by rcases hlast with h | h; exact h; cases h
+    simp only [compileStep, hl]
+    split
+    · exact Or.inl ⟨_, _, rfl, rfl, hp, he⟩
+    · refine Or.inl ⟨_, _, rfl, rfl, ?_, he⟩
+      simp only [map_putPart, hp, anon]
+  | dstarSlash =>
+    have hl : S.last = S'.last := by rcases hlast with h | h; exact h; cases h
+    simp only [compileStep, hl]
+    split
+    · exact Or.inl ⟨_, _, rfl, rfl, hp, he⟩
+    · refine Or.inl ⟨_, _, rfl, rfl, ?_, he⟩
+      simp only [map_putPart, hp, anon]
+  | named m =>
+    have hm : m ≠ n := fun e => htok (by rw [e])
+    simp only [compileStep]
+    by_cases h0 : m = []
+    · simp only [h0, if_true]; exact Or.inr ⟨_, rfl, rfl⟩
+    · simp only [h0, if_false]
+      rw [he m hm]
+      split
+      · exact Or.inl ⟨_, _, rfl, rfl, by simp [hp, anon], he⟩
+      · cases compileSub (subs.getD m) with
+        | error e => exact Or.inr ⟨e, rfl, rfl⟩
+        | ok body =>
+          refine Or.inl ⟨_, _, rfl, rfl, ?_, ?_⟩
+          · simp [hp, anon_group_ne hm]
+          · intro k hk
+            simp only [List.contains_cons]
+            rw [he k hk]
+
+/-- The loop on related states, over tokens that do not mention `n`. -/
+theorem loop_sim (subs : Subs) (n : Str) (toks : List Tok) (hfree : Tok.named n ∉ toks) (S S' : CState)
+    (hrel : StRel n S S') (hlast : S.last = S'.last ∨ ∀ t, toks.head? = some t → starLike t = false) :
+    (∃ T T', compileLoop subs toks S = .ok T ∧ compileLoop subs toks S' = .ok T' ∧
+      T.parts = T'.parts.map (anon n)) ∨
+    (∃ e, compileLoop subs toks S = .error e ∧ compileLoop subs toks S' = .error e) := by
+  induction toks generalizing S S' with
+  | nil => exact Or.inl ⟨S, S', rfl, rfl, hrel.1⟩
+  | cons tok rest ih =>
+    have htok : tok ≠ .named n := fun e => hfree (by rw [e]; exact List.mem_cons_self)
+    have hfree' : Tok.named n ∉ rest := fun h => hfree (List.mem_cons_of_mem _ h)
+    have hl : S.last = S'.last ∨ starLike tok = false := by
+      rcases hlast with h | h
+      · exact Or.inl h
+      · exact Or.inr (h tok rfl)
+    rcases step_sim subs n S S' tok hrel hl htok with ⟨T, T', h1, h2, hr⟩ | ⟨e, h1, h2⟩
+    · simp only [compileLoop, h1, h2]
+      apply ih hfree' T T' hr
+      left
+      rw [compileStep_last h1, compileStep_last h2]
+    · simp only [compileLoop, h1, h2]
+      exact Or.inr ⟨e, rfl, rfl⟩
+
+
+theorem compileLoop_append (subs : Subs) (tp rest : List Tok) (st : CState) :
+    compileLoop subs (tp ++ rest) st =
+      match compileLoop subs tp st with
+      | .error e => .error e
+      | .ok st' => compileLoop subs rest st' := by
+  induction tp generalizing st with
+  | nil => rfl
+  | cons tok tp ih =>
+    simp only [List.cons_append, compileLoop]
+    cases compileStep subs st tok with
+    | error e => rfl
+    | ok st1 => exact ih st1
+
+theorem compileLoop_last {subs : Subs} {tp : List Tok} {st st' : CState}
+    (h : compileLoop subs tp st = .ok st') :
+    (tp = [] ∧ st' = st) ∨ ∃ t, tp.getLast? = some t ∧ st'.last = some t := by
+  induction tp generalizing st with
+  | nil => simp only [compileLoop] at h; cases h; exact Or.inl ⟨rfl, rfl⟩
+  | cons tok rest ih =>
+    simp only [compileLoop] at h
+    split at h
+    · cases h
+    · next st1 h1 =>
+      right
+      rcases ih h with ⟨rfl, rfl⟩ | ⟨t, ht, hl⟩
+      · exact ⟨tok, rfl, compileStep_last h1⟩
+      · refine ⟨t, ?_, hl⟩
+        cases rest with
+        | nil => simp at ht
+        | cons r rs => rw [List.getLast?_cons_cons]; exact ht
+
+theorem compileLoop_ginv {subs : Subs} {toks : List Tok} {st st' : CState}
+    (h : compileLoop subs toks st = .ok st') (hi : GInv st.parts st.enc) : GInv st'.parts st'.enc := by
+  induction toks generalizing st with
+  | nil => simp only [compileLoop] at h; cases h; exact hi
+  | cons tok rest ih =>
+    simp only [compileLoop] at h
+    split at h
+    · cases h
+    · next st1 h1 => exact ih h (compileStep_ginv subs st st1 tok h1 hi)
+
+theorem mem_putPart {α : Type} {b : Bool} {l : List α} {x y : α} (h : y ∈ putPart b l x) :
+    y ∈ l ∨ y = x := by
+  unfold putPart at h
+  split at h
+  · rcases List.mem_append.mp h with h | h
+    · exact Or.inl (List.dropLast_subset l h)
+    · simp at h; exact Or.inr h
+  · rcases List.mem_append.mp h with h | h
+    · exact Or.inl h
+    · simp at h; exact Or.inr h
+
+/-- New names in `enc` and new back-references come from named tokens. -/
+theorem compileStep_trace {subs : Subs} {st st' : CState} {tok : Tok} (h : compileStep subs st tok = .ok st')
+    (m : Str) :
+    (m ∈ st'.enc → m ∈ st.enc ∨ tok = .named m) ∧
+    (Item.bref m ∈ st'.parts → Item.bref m ∈ st.parts ∨ tok = .named m) := by
+  cases tok with
+  | lit s => simp only [compileStep] at h; cases h; simp
+  | qm => simp only [compileStep] at h; cases h; simp
+  | cls b => simp only [compileStep] at h; cases h; simp
+  | star =>
+    simp only [compileStep] at h
+    split at h <;> (cases h; simp)
+  | dstar =>
+    simp only [compileStep] at h
+    split at h
+    · cases h; simp
+    · cases h
+      refine ⟨fun hm => Or.inl hm, fun hb => ?_⟩
+      rcases mem_putPart hb with hb | hb
+      · exact Or.inl hb
+      · cases hb
+  | dstarSlash =>
+    simp only [compileStep] at h
+    split at h
+    · cases h; simp
+    · cases h
+      refine ⟨fun hm => Or.inl hm, fun hb => ?_⟩
+      rcases mem_putPart hb with hb | hb
+      · exact Or.inl hb
+      · cases hb
+  | named k =>
+    simp only [compileStep] at h
+    split at h
+    · cases h
+    · split at h
+      · cases h
+        refine ⟨fun hm => Or.inl hm, fun hb => ?_⟩
+        rcases List.mem_append.mp hb with hb | hb
+        · exact Or.inl hb
+        · simp at hb; exact Or.inr (by rw [hb])
+      · split at h
+        · cases h
+        · cases h
+          refine ⟨fun hm => ?_, fun hb => ?_⟩
+          · rcases List.mem_cons.mp hm with hm | hm
+            · exact Or.inr (by rw [hm])
+            · exact Or.inl hm
+          · rcases List.mem_append.mp hb with hb | hb
+            · exact Or.inl hb
+            · simp at hb
+
+theorem compileLoop_trace {subs : Subs} {toks : List Tok} {st st' : CState}
+    (h : compileLoop subs toks st = .ok st') (m : Str) :
+    (m ∈ st'.enc → m ∈ st.enc ∨ Tok.named m ∈ toks) ∧
+    (Item.bref m ∈ st'.parts → Item.bref m ∈ st.parts ∨ Tok.named m ∈ toks) := by
+  induction toks generalizing st with
+  | nil => simp only [compileLoop] at h; cases h; exact ⟨Or.inl, Or.inl⟩
+  | cons tok rest ih =>
+    simp only [compileLoop] at h
+    split at h
+    · cases h
+    · next st1 h1 =>
+      have a := ih h
+      have b := compileStep_trace h1 m
+      constructor
+      · intro hm
+        rcases a.1 hm with hm | hm
+        · rcases b.1 hm with hm | hm
+          · exact Or.inl hm
+          · exact Or.inr (by rw [hm]; exact List.mem_cons_self)
+        · exact Or.inr (List.mem_cons_of_mem _ hm)
+      · intro hm
+        rcases a.2 hm with hm | hm
+        · rcases b.2 hm with hm | hm
+          · exact Or.inl hm
+          · exact Or.inr (by rw [hm]; exact List.mem_cons_self)
+        · exact Or.inr (List.mem_cons_of_mem _ hm)
+
+theorem map_anon_id {n : Str} {l : List Item} {enc : List Str} (hi : GInv l enc) (hn : n ∉ enc) :
+    l.map (anon n) = l := by
+  have : ∀ x ∈ l, anon n x = x := by
+    intro x hx
+    cases x with
+    | atom a => rfl
+    | bref m => rfl
+    | group m b =>
+      have hm : m ∈ groupNames l := by
+        simp only [groupNames, List.mem_filterMap]
+        exact ⟨_, hx, rfl⟩
+      have : m ≠ n := by rintro rfl; exact hn (hi.2 m hm)
+      exact anon_group_ne this b
+  calc l.map (anon n) = l.map id := List.map_congr_left this
+    _ = l := List.map_id l
+
+theorem bref_mem_enclosedPass {m : Str} {b : Bool} {l : List Item} (h : Item.bref m ∈ enclosedPass b l) :
+    Item.bref m ∈ l := by
+  induction l generalizing b with
+  | nil => simp [enclosedPass] at h
+  | cons x t ih =>
+    cases t with
+    | nil => simpa [enclosedPass] using h
+    | cons y rest =>
+      simp only [enclosedPass] at h
+      rcases List.mem_cons.mp h with h | h
+      · have : x = Item.bref m := by
+          split at h
+          · cases x with
+            | atom a => cases a <;> simp [enclosedFix] at h
+            | bref k => simp only [enclosedFix] at h; exact h.symm
+            | group k bd => simp only [enclosedFix] at h; split at h <;> cases h
+          · exact h.symm
+        rw [this]; exact List.mem_cons_self
+      · exact List.mem_cons_of_mem _ (ih h)
+
+theorem bref_mem_trailingPass {m : Str} {l : List Item} (h : Item.bref m ∈ trailingPass l) :
+    Item.bref m ∈ l := by
+  cases hr : l.reverse with
+  | nil =>
+    have : l = [] := by simpa using hr
+    subst this; exact h
+  | cons last rp =>
+    have hl : l = rp.reverse ++ [last] := List.reverse_eq_cons_iff.mp hr
+    generalize rp.reverse = prevs at hl
+    subst hl
+    rw [trailingPass_concat] at h
+    cases last with
+    | atom a =>
+      cases a with
+      | star cs =>
+        cases cs with
+        | notSlash =>
+          simp only at h
+          rcases List.mem_append.mp h with h | h
+          · exact List.mem_append_left _ h
+          · simp at h
+        | _ => exact h
+      | _ => exact h
+    | bref k => exact h
+    | group k bd =>
+      simp only at h
+      split at h
+      · rcases List.mem_append.mp h with h | h
+        · exact List.mem_append_left _ h
+        · simp at h
+      · exact h
+
+theorem compileSub_star : compileSub [42] = .ok [.star .notSlash] := by rfl
+
+
+/-- Compiling with `${*n}` (fresh, no substitution, not next to another `*`-like token) gives the
+expression compiled with `*`, up to the group around that one wildcard. -/
+theorem compileToks_anon (subs : Subs) (tp tq : List Tok) (n : Str)
+    (hn : n ≠ []) (hsub : subs.getD n = [42]) (hp : Tok.named n ∉ tp) (hq : Tok.named n ∉ tq)
+    (hl1 : tp.getLast? ≠ some .star) (hl2 : tp.getLast? ≠ some .dstar)
+    (hright : ∀ t, tq.head? = some t → starLike t = false) :
+    (∃ R, compileToks (tp ++ .named n :: tq) subs = .ok R ∧
+        compileToks (tp ++ .star :: tq) subs = .ok (R.map (anon n)) ∧ ∀ m, Item.bref m ∈ R → m ≠ n) ∨
+    (∃ e, compileToks (tp ++ .named n :: tq) subs = .error e ∧
+        compileToks (tp ++ .star :: tq) subs = .error e) := by
+  unfold compileToks
+  rw [compileLoop_append, compileLoop_append]
+  cases hP : compileLoop subs tp ⟨[], none, []⟩ with
+  | error e => exact Or.inr ⟨e, rfl, rfl⟩
+  | ok P =>
+    simp only
+    have hginv : GInv P.parts P.enc := compileLoop_ginv hP ⟨by simp [groupNames], by simp [groupNames]⟩
+    have htr := compileLoop_trace hP
+    have hnenc : n ∉ P.enc := by
+      intro h
+      rcases (htr n).1 h with h | h
+      · simp at h
+      · exact hp h
+    have hPlast : P.last ≠ some .star ∧ P.last ≠ some .dstar := by
+      rcases compileLoop_last hP with ⟨_, rfl⟩ | ⟨t, ht, hl⟩
+      · exact ⟨by simp, by simp⟩
+      · rw [hl, ← ht]; exact ⟨hl1, hl2⟩
+    -- the two first steps
+    have hstar : compileStep subs P .star =
+        .ok { P with parts := P.parts ++ [.atom (.star .notSlash)], last := some .star } := by
+      simp [compileStep, hPlast.1, hPlast.2]
+    have hnamed : compileStep subs P (.named n) =
+        .ok { parts := P.parts ++ [.group n [.star .notSlash]], last := some (.named n), enc := n :: P.enc } := by
+      simp [compileStep, hn, hnenc, hsub, compileSub_star]
+    simp only [compileLoop, hstar, hnamed]
+    have hrel : StRel n { P with parts := P.parts ++ [.atom (.star .notSlash)], last := some .star }
+        { parts := P.parts ++ [.group n [.star .notSlash]], last := some (.named n), enc := n :: P.enc } := by
+      constructor
+      · simp [map_anon_id hginv hnenc, anon]
+      · intro m hm
+        simp only [List.contains_cons]
+        have : (m == n) = false := by simpa using hm
+        rw [this, Bool.false_or]
+    rcases loop_sim subs n tq hq _ _ hrel (Or.inr hright) with ⟨T, T', h1, h2, hparts⟩ | ⟨e, h1, h2⟩
+    · left
+      refine ⟨_, by rw [h2], ?_, ?_⟩
+      · rw [h1]; simp only; rw [hparts, enclosedPass_anon, trailingPass_anon]
+      · intro m hm
+        have hm1 := bref_mem_enclosedPass (bref_mem_trailingPass hm)
+        rcases (compileLoop_trace h2 m).2 hm1 with hb1 | hb1
+        · have hb2 : Item.bref m ∈ P.parts ++ [Item.group n [Atom.star CSet.notSlash]] := hb1
+          rcases List.mem_append.mp hb2 with hb3 | hb3
+          · rcases (htr m).2 hb3 with hb4 | hb4
+            · simp at hb4
+            · intro hmn; rw [hmn] at hb4; exact hp hb4
+          · simp at hb3
+        · intro hmn; rw [hmn] at hb1; exact hq hb1
+    · right
+      exact ⟨e, by rw [h2], by rw [h1]⟩
+
+/-! #### Forgetting a group that nothing refers to does not change what is accepted -/
+
+theorem matchAtoms_isSome_iff {α : Type} (as : List Atom) (k : Str → Option α) (inp : Str) :
+    (matchAtoms as k inp).isSome = true ↔
+      ∃ u v, inp = u ++ v ∧ AtomsLang as u ∧ (k v).isSome = true := by
+  constructor
+  · intro h
+    obtain ⟨e, he⟩ := Option.isSome_iff_exists.mp h
+    obtain ⟨u, v, h1, h2, h3⟩ := matchAtoms_sound as k inp e he
+    exact ⟨u, v, h1, h2, by rw [h3]; rfl⟩
+  · rintro ⟨u, v, rfl, h2, h3⟩
+    exact matchAtoms_complete as k u v h2 h3
+
+theorem matchAtoms_isSome_congr {α β : Type} (as : List Atom) (k : Str → Option α) (k' : Str → Option β)
+    (inp : Str) (h : ∀ r, (k r).isSome = (k' r).isSome) :
+    (matchAtoms as k inp).isSome = (matchAtoms as k' inp).isSome := by
+  rw [Bool.eq_iff_iff, matchAtoms_isSome_iff, matchAtoms_isSome_iff]
+  constructor
+  · rintro ⟨u, v, h1, h2, h3⟩; exact ⟨u, v, h1, h2, by rw [← h]; exact h3⟩
+  · rintro ⟨u, v, h1, h2, h3⟩; exact ⟨u, v, h1, h2, by rw [h]; exact h3⟩
+
+def AgreeExcept (n : Str) (e e' : Env) : Prop := ∀ m, m ≠ n → e.get m = e'.get m
+
+theorem agreeExcept_cons {n : Str} {e e' : Env} (h : AgreeExcept n e e') (m v : Str) :
+    AgreeExcept n ((m, v) :: e) ((m, v) :: e') := by
+  intro k hk
+  rw [env_get_cons, env_get_cons, h k hk]
+
+theorem agreeExcept_cons_right {n : Str} {e e' : Env} (h : AgreeExcept n e e') (v : Str) :
+    AgreeExcept n e ((n, v) :: e') := by
+  intro k hk
+  rw [env_get_cons, if_neg (fun e => hk e.symm), h k hk]
+
+theorem matchItems_anon (n : Str) (l : List Item) (hb : ∀ m, Item.bref m ∈ l → m ≠ n) (e e' : Env)
+    (h : AgreeExcept n e e') (inp : Str) :
+    (matchItems (l.map (anon n)) e inp).isSome = (matchItems l e' inp).isSome := by
+  induction l generalizing e e' inp with
+  | nil => simp only [List.map_nil, matchItems]; split <;> rfl
+  | cons x rest ih =>
+    have hb' : ∀ m, Item.bref m ∈ rest → m ≠ n := fun m hm => hb m (List.mem_cons_of_mem _ hm)
+    cases x with
+    | atom a =>
+      simp only [List.map_cons, anon_atom, matchItems]
+      exact matchAtoms_isSome_congr _ _ _ _ (fun r => ih hb' e e' h r)
+    | bref m =>
+      have hm : m ≠ n := hb m List.mem_cons_self
+      simp only [List.map_cons, anon_bref, matchItems]
+      rw [h m hm]
+      split
+      · split
+        · exact ih hb' e e' h _
+        · rfl
+      · rfl
+    | group m b =>
+      by_cases h1 : m = n ∧ b = [.star .notSlash]
+      · obtain ⟨rfl, rfl⟩ := h1
+        have ea : anon m (.group m [.star .notSlash]) = .atom (.star .notSlash) := by simp [anon]
+        simp only [List.map_cons, ea, matchItems]
+        exact matchAtoms_isSome_congr _ _ _ _ (fun r => ih hb' e _ (agreeExcept_cons_right h _) r)
+      · by_cases h2 : m = n ∧ b = [.plus .notSlash]
+        · obtain ⟨rfl, rfl⟩ := h2
+          have ea : anon m (.group m [.plus .notSlash]) = .atom (.plus .notSlash) := by simp [anon]
+          simp only [List.map_cons, ea, matchItems]
+          exact matchAtoms_isSome_congr _ _ _ _ (fun r => ih hb' e _ (agreeExcept_cons_right h _) r)
+        · have ea : anon n (.group m b) = .group m b := by simp [anon, h1, h2]
+          simp only [List.map_cons, ea, matchItems]
+          exact matchAtoms_isSome_congr _ _ _ _ (fun r => ih hb' _ _ (agreeExcept_cons h m _) r)
+
+theorem accepts_anon (n : Str) (l : List Item) (hb : ∀ m, Item.bref m ∈ l → m ≠ n) (s : Str) :
+    accepts (l.map (anon n)) s = accepts l s := by
+  unfold accepts fullmatch
+  exact matchItems_anon n l hb [] [] (fun _ _ => rfl) s
+
+
+/-- Everything `NamedGlob.glob` hands to `extend` exists in the tree. -/
+theorem globPaths_exist (t : Tree) (g : Str) (q : Str) (h : q ∈ globPaths t g) : q ∈ treePaths t := by
+  simp only [globPaths, List.mem_filterMap] at h
+  obtain ⟨x, _, hx⟩ := h
+  unfold recordPath at hx
+  split at hx
+  · next hd =>
+    cases hx
+    exact render_mem_treePaths ((isDirQ_iff t x.1).mp hd).2
+  · next hd =>
+    split at hx
+    · next hc =>
+      cases hx
+      simp only [Bool.and_eq_true, Bool.not_eq_true'] at hc
+      obtain ⟨hne, hm | hm⟩ := (existsQ_iff t x.1).mp hc.2
+      · exact absurd ((isDirQ_iff t x.1).mpr ⟨hne, hm⟩) hd
+      · have : x = (x.1, false) := by rw [← hc.1]
+        rw [this]; exact render_mem_treePaths hm
+    · cases hx
 
 end StepupModel.P.NGlob
